@@ -65,6 +65,17 @@ func tqFuncs(p *Prog) []*ssa.Function {
 
 func runC02(c *Ctx) {
 	p := c.P
+	// what the queue reports to its watchers as downloaded (fetch, pull, the filter process act on it) is decided
+	// in package tq: only results without error, each describing its own entry, and an OID counts as completed
+	// only after a successful transfer (C06.R8, shared)
+	{
+		saved := c.RulePrefix
+		c.RulePrefix = saved + "C06/"
+		if m := newTQModel(c); m != nil {
+			m.deliveries()
+		}
+		c.RulePrefix = saved
+	}
 	noret := func(in ssa.Instruction) bool { _, ok := in.(*ssa.Panic); return ok }
 
 	// ---- R1: every publish to Transfer.Path is hash-guarded --------------------------------
